@@ -520,6 +520,19 @@ func main() {
 			}
 		})
 
+		// (e) every byte value at every position of valid lines of every shape
+		// (both ends of each character range and their neighbours; the other
+		// white-space and control bytes between fields and inside names).
+		shm := sh()
+		for _, base := range []string{"1.2.3.4 host.example", "::1 a b c", "1.2.3.4\ta.example # comment", " 9.9.9.9  z9.example\t0a.example ",
+			"fe80::1%eth0 host", "1.2.3.4 a#b", "::ffff:1.2.3.4 A.Example.ORG", "1.2.3.4 xn--e1afmkfd.xn--p1ai", "#1.2.3.4 a", "1.2.3.4"} {
+			gen.ByteMutations(base, func(m string) {
+				if shm.Mine() && evalLine(c, "line-byte-mutations", m) {
+					c.NontrivialKey(m)
+				}
+			})
+		}
+
 		// Quick: the full product up to 3 fields; 4-field lines with every
 		// separator vector but only the (lead, tail) pairs with an empty
 		// member.  Thorough: the full product up to 4 fields and the 5-field
